@@ -388,6 +388,22 @@ impl Env {
     fn closure_call(&mut self, f: &str, args: &[(Option<String>, E)], params: &[String], body: &[E]) -> R {
         let Some((_, first)) = args.first() else { return Err(Flow::Unsupported("closure call without collection".into())) };
         let coll = decided(self.with_ctx("call_argument", |s| s.eval(first))?)?;
+        // replace_with: remaining arguments (pattern, count) are evaluated before the closure runs
+        let mut rw: Option<(String, i64)> = None;
+        if f == "replace_with" {
+            let mut pattern: Option<String> = None;
+            let mut count: i64 = -1;
+            for (i, (kw, a)) in args.iter().enumerate().skip(1) {
+                let v = decided(self.with_ctx("call_argument", |s| s.eval(a))?)?;
+                match (kw.as_deref(), i, v) {
+                    (Some("pattern"), _, TV::Regex(p)) | (None, 1, TV::Regex(p)) => pattern = Some(p),
+                    (Some("count"), _, TV::Int(n)) | (None, 2, TV::Int(n)) => count = n,
+                    other => return Err(Flow::Unsupported(format!("replace_with argument {other:?}"))),
+                }
+            }
+            let Some(p) = pattern else { return Err(Flow::Unsupported("replace_with without pattern".into())) };
+            rw = Some((p, count));
+        }
         let recursive = false;
         let _ = recursive;
         // save the variables the parameters shadow
@@ -397,7 +413,10 @@ impl Env {
             self.stats.closure_shadowed_outer += 1;
         }
         self.in_closure += 1;
-        let result = self.with_ctx("closure", |s| s.closure_iterate(f, &coll, params, body));
+        let result = match &rw {
+            Some((pattern, count)) => self.with_ctx("closure", |s| s.replace_with(&coll, pattern, *count, params, body)),
+            None => self.with_ctx("closure", |s| s.closure_iterate(f, &coll, params, body)),
+        };
         self.in_closure -= 1;
         for (name, old) in saved {
             match old {
@@ -432,6 +451,51 @@ impl Env {
             }
             Err(other) => Err(other),
         }
+    }
+
+    /// documented semantics of `replace_with`: every non-overlapping match of the pattern (at most
+    /// `count` of them; negative = all, 0 = none) is replaced by the string the closure yields for
+    /// the match object {"string": whole match, "captures": [groups, null when absent], <named groups>}
+    fn replace_with(&mut self, value: &TV, pattern: &str, count: i64, params: &[String], body: &[E]) -> R {
+        let hay = match value {
+            TV::Str(s) => s,
+            TV::Bin(_) => return Err(Flow::Unsupported("replace_with on a string that is not UTF-8".into())),
+            _ => return Err(Flow::Err),
+        };
+        let Ok(re) = regex::Regex::new(pattern) else { return Err(Flow::Unsupported(format!("pattern {pattern:?} does not compile"))) };
+        if count == 0 {
+            return Ok(value.clone());
+        }
+        let mut out = String::new();
+        let mut last = 0usize;
+        let mut done = 0i64;
+        for caps in re.captures_iter(hay) {
+            if count > 0 && done >= count {
+                break;
+            }
+            let whole = caps.get(0).expect("group 0 always exists");
+            let mut obj: BTreeMap<String, TV> = BTreeMap::new();
+            obj.insert("string".to_string(), TV::Str(whole.as_str().to_string()));
+            let mut groups = Vec::new();
+            for (i, name) in re.capture_names().enumerate().skip(1) {
+                let v = caps.get(i).map_or(TV::Null, |g| TV::Str(g.as_str().to_string()));
+                if let Some(n) = name {
+                    obj.insert(n.to_string(), v.clone());
+                }
+                groups.push(v);
+            }
+            obj.insert("captures".to_string(), TV::Array(groups));
+            let replacement = match decided(self.run_body(params, vec![TV::Object(obj)], body)?)? {
+                TV::Str(s) => s,
+                _ => return Err(Flow::Err),
+            };
+            out.push_str(&hay[last..whole.start()]);
+            out.push_str(&replacement);
+            last = whole.end();
+            done += 1;
+        }
+        out.push_str(&hay[last..]);
+        Ok(TV::Str(out))
     }
 
     fn closure_iterate(&mut self, f: &str, coll: &TV, params: &[String], body: &[E]) -> R {
